@@ -135,6 +135,24 @@ Theorem C11_handler_order_is_models :
 Proof. exact summaries_match_model. Qed.
 Print Assumptions C11_handler_order_is_models.
 
+(* what CheckAuth is asked in the source is the model's [demand]; the expiry test, the
+   permission asked per kind of command, the accepted permission names and the TTL refusal of
+   internal/auth are the model's *)
+Theorem C11_checkauth_args :
+  checkauth_args =
+    [("SUB", "string(params[1])", "string(params[2])"); ("PUB", "string(params[1])", """""");
+     ("MPUB", "string(params[1])", """"""); ("DPUB", "string(params[1])", """""")]%string.
+Proof. exact checkauth_args_are_demand. Qed.
+Print Assumptions C11_checkauth_args.
+Theorem C11_auth_shapes :
+  (isexpired_expr = "a.Expires.Before(time.Now())" /\
+   isallowed_branch = ("channel != """"", "subscribe", "publish") /\
+   queryauthd_known_perms = ["subscribe"; "publish"] /\
+   queryauthd_ttl_refused = "authState.TTL <= 0" /\
+   bytes_of_string "subscribe" = s_subscribe /\ bytes_of_string "publish" = s_publish)%string.
+Proof. exact auth_shapes. Qed.
+Print Assumptions C11_auth_shapes.
+
 (* ================================================================== C11_denial_no_trace *)
 (* A command answered E_AUTH_FIRST / E_AUTH_FAILED / E_UNAUTHORIZED gets that single fatal
    answer, changes nothing visible (whatever the daemon's state was), and is the last
